@@ -418,6 +418,7 @@ impl<F: NttFriendlyFieldElement, S: ParallelSumGadget<F, Mul>> Histogram<F, S> {
         if !length.is_multiple_of(chunk_length) {
             gadget_calls += 1;
         }
+        check_parallel_sum_lengths(chunk_length, gadget_calls)?;
 
         Ok(Self {
             length,
@@ -626,6 +627,7 @@ impl<F: NttFriendlyFieldElement, S: ParallelSumGadget<F, Mul>> MultihotCountVec<
 
         // Gadget calls is ⌈meas_length / chunk_length⌉
         let gadget_calls = meas_length.div_ceil(chunk_length);
+        check_parallel_sum_lengths(chunk_length, gadget_calls)?;
 
         Ok(Self {
             length: num_buckets,
@@ -871,6 +873,7 @@ impl<F: NttFriendlyFieldElement, S: ParallelSumGadget<F, Mul>> SumVec<F, S> {
         if flattened_len % chunk_length != 0 {
             gadget_calls += 1;
         }
+        check_parallel_sum_lengths(chunk_length, gadget_calls)?;
 
         Ok(Self {
             len,
@@ -1003,6 +1006,31 @@ where
     fn output_len(&self) -> usize {
         self.len
     }
+}
+
+/// Checks that the proof and verifier lengths of a validity circuit built around a
+/// [`ParallelSumGadget`] with the given chunk length and number of gadget calls are representable
+/// as `usize`, so that the length accessors of a successfully constructed type cannot overflow.
+pub(crate) fn check_parallel_sum_lengths(
+    chunk_length: usize,
+    gadget_calls: usize,
+) -> Result<(), FlpError> {
+    let arity = chunk_length.checked_mul(2);
+    let gadget_poly_terms = gadget_calls
+        .checked_add(1)
+        .and_then(usize::checked_next_power_of_two)
+        .and_then(|wire_poly_len| (wire_poly_len - 1).checked_mul(2));
+    arity
+        .zip(gadget_poly_terms)
+        .and_then(|(arity, terms)| arity.checked_add(terms))
+        // proof_len = arity + terms + 1, verifier_len = arity + 2
+        .and_then(|len| len.checked_add(2))
+        .map(|_| ())
+        .ok_or_else(|| {
+            FlpError::InvalidParameter(
+                "chunk_length or measurement length is too large".to_string(),
+            )
+        })
 }
 
 /// Given a vector `data` of field elements which should contain exactly one entry, return the
